@@ -343,7 +343,11 @@ func Check(c *core.Ctx, pool *gjs.Pool, cfg Config) {
 		pj = append(pj, p.TLA())
 	}
 	params, _ := json.Marshal(map[string]any{"ni": ni, "fuel": 40, "out": "pred", "progs": pj})
-	r, err := tlcx.Run(c, tlcx.Opts{Module: "MiniGoScen", Cfg: "SPECIFICATION Spec\nINVARIANT SemOK Emit\nCHECK_DEADLOCK FALSE\n", Workers: 8, Timeout: 30 * time.Minute,
+	tlcWorkers := 8
+	if c.Workers < 16 { // a restricted run (VERIF_WORKERS): keep TLC small as well
+		tlcWorkers = 2
+	}
+	r, err := tlcx.Run(c, tlcx.Opts{Module: "MiniGoScen", Cfg: "SPECIFICATION Spec\nINVARIANT SemOK Emit\nCHECK_DEADLOCK FALSE\n", Workers: tlcWorkers, Timeout: 30 * time.Minute,
 		Files: map[string]string{"c01_params.json": string(params)}, HeapMB: 8192})
 	if !tlcx.MustComplete(c, r, err, "MiniGoScen") {
 		return
@@ -434,6 +438,7 @@ func Check(c *core.Ctx, pool *gjs.Pool, cfg Config) {
 		ci   int
 		got  []string
 	}
+	corrupt := os.Getenv("VERIF_MINIGO_CORRUPT") != ""
 	vs := make([][]viol, nb)
 	evals := make([]int, nb)
 	discards := make([]int, nb)
@@ -478,7 +483,12 @@ func Check(c *core.Ctx, pool *gjs.Pool, cfg Config) {
 				return
 			}
 			out := filepath.Join(dir, "out.js")
-			if err := pool.Build(dir, out, gjs.Opts{Minify: m.Minify}); err != nil {
+			err = pool.Build(dir, out, gjs.Opts{Minify: m.Minify})
+			if be, _ := err.(*gjs.BuildError); be != nil && strings.Contains(be.Error(), "compiler process died") {
+				// a killed worker is not a verdict; a genuine crash of the compiler happens again
+				err = pool.Build(dir, out, gjs.Opts{Minify: m.Minify})
+			}
+			if err != nil {
 				be, _ := err.(*gjs.BuildError)
 				if be != nil {
 					keys := []string{"compiler_rejects_valid_program"}
@@ -493,7 +503,16 @@ func Check(c *core.Ctx, pool *gjs.Pool, cfg Config) {
 				continue
 			}
 			if cfg.NodeCheck {
-				if r := gjs.NodeCheck(out); r.ExitCode != 0 {
+				r := gjs.NodeCheck(out)
+				for try := 0; try < 3 && (r.TimedOut || r.Err != nil); try++ {
+					r = gjs.NodeCheck(out) // the syntax check did not run to completion (overloaded machine)
+				}
+				if r.TimedOut || r.Err != nil {
+					c.Infra(fmt.Errorf("node --check did not complete (timeout=%v err=%v)", r.TimedOut, r.Err))
+					os.RemoveAll(dir)
+					return
+				}
+				if r.ExitCode != 0 {
 					c.Report(core.Case{Keys: []string{"emitted_js_syntax_error"}, Summary: fmt.Sprintf("mode %s: node --check rejects the emitted file: %s", m.Name, tailStr(r.Out, 600)), Files: prog.ReplayFiles("prog")})
 					os.RemoveAll(dir)
 					continue
@@ -507,15 +526,11 @@ func Check(c *core.Ctx, pool *gjs.Pool, cfg Config) {
 			for i, mk := range masks {
 				jobs[i] = gjs.Job{Args: []string{strconv.Itoa(int(mk))}, MaxSteps: 2000000}
 			}
-			// (a few jobs per Node process: the runner has one wall-clock budget per call)
+			// (one job per Node process: the runner has one wall-clock budget per call)
 			var obs []gjs.Obs
-			for lo := 0; lo < len(jobs) && err == nil; lo += 3 {
-				hi := lo + 3
-				if hi > len(jobs) {
-					hi = len(jobs)
-				}
+			for lo := 0; lo < len(jobs) && err == nil; lo++ {
 				var part []gjs.Obs
-				part, err = gjs.NodeMulti(out, jobs[lo:hi], 10*time.Minute)
+				part, err = gjs.NodeMulti(out, jobs[lo:lo+1], 20*time.Minute)
 				obs = append(obs, part...)
 			}
 			if err != nil {
@@ -542,6 +557,10 @@ func Check(c *core.Ctx, pool *gjs.Pool, cfg Config) {
 						}
 						evals[bi]++
 						got := sec[[2]int{n, ci}]
+						if corrupt && bi == 0 && n == 0 && ci == 0 {
+							// development aid: the comparison must notice a wrong prediction
+							got = append(append([]string{}, got...), "corrupted")
+						}
 						if !same(got, cs.want) {
 							vs[bi] = append(vs[bi], viol{pt, m.Name, masks[i], ci, append(got, "end="+o.End+" "+o.Msg)})
 						}
@@ -827,11 +846,11 @@ func (ci *callInfo) rhsFirst(n []any) bool {
 }
 
 // rteEarly: a single assignment to a slice / array element or a map entry whose
-// right-hand side contains a call, in a program that must end in an index or nil-map
-// panic: the compiler raises the panic before it evaluates the right-hand side.
-func rteEarly(n []any, want []string) bool {
+// right-hand side contains a call that cannot suspend, in a program that must end in an
+// index or nil-map panic: the compiler raises the panic before it evaluates the right-hand side.
+func (ci *callInfo) rteEarly(n []any, want []string) bool {
 	l := n[1].([]any)
-	if l[0] != "idx" || len(want) == 0 || !hasKind(n[2].([]any), callKinds...) {
+	if l[0] != "idx" || len(want) == 0 || !ci.directCall(n[2].([]any)) {
 		return false
 	}
 	last := want[len(want)-1]
@@ -897,7 +916,7 @@ func Classify(p *Program, mode string, mask uint32, want []string) []string {
 				if ci.rhsFirst(n) {
 					add("assign_rhs_calls_before_lhs_operand_calls")
 				}
-				if rteEarly(n, want) {
+				if ci.rteEarly(n, want) {
 					add("rte_raised_before_rhs_evaluated")
 				}
 			case "defer":
